@@ -267,7 +267,23 @@ class OptCase:
         c.cfg = rp.get("config")
         c.tags = set(rp.get("tags", []))
         c.raw_xargv = rp.get("reload_argv") or []
+        c.xcli = cli_of(c.raw_xargv)          # for the oracle of the reload with extra options
         return c
+
+
+def cli_of(av):
+    """option occurrences of a plain argv tail (`--name v ...`, `-x v ...`; a word starting with - and not a number opens one)"""
+    res, i = [], 0
+    while i < len(av):
+        nm = av[i]
+        j = i + 1
+        while j < len(av) and not (av[j].startswith("-") and not av[j][1:2].isdigit() and av[j] != "-"):
+            j += 1
+        kind = "L" if nm.startswith("--") else "S"
+        o = spec_resolve(nm.lstrip("-"), kind)
+        res.append(dict(kind=kind, name=nm.lstrip("-"), toks=av[i + 1:j], opt=o["name"] if o else None))
+        i = j
+    return res
 
 
 def esc(s):
